@@ -174,6 +174,9 @@ bool SeasmartToN2k(const char *buffer, uint32_t &timestamp, tN2kMsg &msg) {
   }
 
   // Skip the terminating '*' which marks beginning of checksum
+  if (*s != '*') {
+    return false;
+  }
   s += 1;
   uint32_t checksum;
   if (!readNHexByte(s, 1, checksum)) {
